@@ -160,3 +160,82 @@ Definition live_oper (g : ghost) (ow op : addr) : bool :=
   | Some lu => (g_now g <=? lu)%Z
   | None => false
   end.
+
+(* ================= the boundary of the properties' quantifier, and trace well-formedness ================= *)
+Definition is_none {A} (o : option A) : bool := match o with None => true | Some _ => false end.
+Definition is_some {A} (o : option A) : bool := match o with None => false | Some _ => true end.
+
+(* ids that were ever assigned individually (explicit mints, sequential mints, moves) *)
+Fixpoint point_ids (r : rmap) : list N :=
+  match r with
+  | [] => []
+  | LPoint i _ :: r' => i :: point_ids r'
+  | LRange _ _ _ :: r' => point_ids r'
+  end.
+(* no individually assigned id inside lo..hi exists *)
+Definition point_fresh (r : rmap) (lo hi : N) : bool :=
+  forallb (fun i => if (lo <=? i) && (i <=? hi) then is_none (rget r i) else true) (point_ids r).
+
+(* How a successful mint stands to the properties' quantifier ("sequential ids, explicit FRESH ids,
+   batches"), judged against the reference BEFORE the call:
+   - Illegal: the contract itself broke the rule - a sequential or batch mint returned an id below an id
+     issued before, a malformed return value, a mint entry point the flavour does not have;
+   - OutOfScope: the CALLER left the quantifier - an explicit mint onto an existing id, or the sequential
+     counter / a batch range meeting a live explicitly minted id (the library documents uniqueness of
+     explicit ids as the integrator's responsibility); from there on the properties say nothing;
+   - InScope otherwise. *)
+Inductive scope := InScope | OutOfScope | Illegal.
+Definition mint_scope (fl : flavour) (g : ghost) (cl : call) (o : outcome) : scope :=
+  match o with
+  | Fail => InScope
+  | Ok r =>
+      match cl with
+      | MintSeq _ =>
+          match fl, r with
+          | FCons, _ | _, None => Illegal
+          | _, Some id =>
+              if id <? g_next g then Illegal
+              else if is_none (rget (g_own g) id) then InScope else OutOfScope
+          end
+      | MintId _ id =>
+          match fl with
+          | FCons => Illegal
+          | _ => if is_none (rget (g_own g) id) then InScope else OutOfScope
+          end
+      | BatchMint _ amount =>
+          match fl, r with
+          | FCons, Some last =>
+              if (1 <=? amount) && (amount <=? last + 1) && (g_next g <=? last + 1 - amount)
+              then (if point_fresh (g_own g) (last + 1 - amount) last then InScope else OutOfScope)
+              else Illegal
+          | _, _ => Illegal
+          end
+      | _ => InScope
+      end
+  end.
+
+(* strictly increasing (hence duplicate-free) *)
+Fixpoint incr_from (lo : N) (l : list N) : bool :=
+  match l with [] => true | x :: r => (lo <? x) && incr_from x r end.
+Definition strictly_incr (l : list N) : bool :=
+  match l with [] => true | x :: r => incr_from x r end.
+(* every id lo, lo+1, ..., lo+n-1 occurs in the strictly increasing list l *)
+Fixpoint covers_from (l : list N) (lo : N) (n : nat) : bool :=
+  match n with
+  | O => true
+  | S k =>
+      match l with
+      | [] => false
+      | x :: r => if x <? lo then covers_from r lo n
+                  else if x =? lo then covers_from r (lo + 1) k else false
+      end
+  end.
+
+(* the ids a call names / returns: they must be among the queried ids *)
+Definition call_ids (cl : call) (o : outcome) : list N :=
+  match cl with
+  | MintId _ id | Transfer _ _ _ id | TransferFrom _ _ _ _ id | Burn _ _ id | BurnFrom _ _ _ id | Approve _ _ _ id _ => [id]
+  | MintSeq _ => match o with Ok (Some id) => [id] | _ => [] end
+  | BatchMint _ amt => match o with Ok (Some last) => [last + 1 - amt; last] | _ => [] end
+  | _ => []
+  end.
